@@ -185,6 +185,15 @@ def gen_comp(rng, name: str, pool: typing.List[Comp], level: int, force_union: t
                 if off % 8:
                     c.fields.append(('', T('void%d' % (8 - off % 8), 1, 8 - off % 8, 'void')))
                 c.fields.append(('f%dt' % len(c.fields), tail))
+    # messages that END in a zero-size composite (an empty type, an array of them): the nested routine is then handed a
+    # zero-length (sub-)buffer that starts exactly at the end of an exactly sized buffer
+    empties = [e for e in pool if e.body_max == 0 and e.sealed] if level > 0 else []
+    if empties and not c.union and rng.random() < 0.2:
+        r = rng.choice(empties).ref()
+        if rng.random() < 0.3:
+            n = rng.choice([1, 2, 3])
+            r = T('%s[%d]' % (r.text, n), 8, 0, 'farr:comp', r.depth)
+        c.fields.append(('f%dz' % len(c.fields), r))
     c.depth = max([t.depth for _, t in c.fields] or [0])
     c.body_max = body_max(c.union, c.fields) if c.fields else 0
     c.sealed = rng.random() < 0.5
@@ -253,6 +262,11 @@ def _generate(rng, n_types: int, budget: int) -> dict:
             files[path_of(c, fixed)] = comp_text(c)
 
     add(0, n0)
+    if not any(c.body_max == 0 and c.sealed for c in pools[0]):      # always one empty sealed type to nest
+        counter[0] += 1
+        e = Comp(roota + '.T%d' % counter[0], 1, 0)
+        pools[0].append(e)
+        files[path_of(e)] = comp_text(e)
     add(1, n1)
     add(2, n2)
     add(3, n3)
